@@ -3,12 +3,20 @@
    [id, kind |-> "blocks", text, obs |-> [raised, hdr, rows]]
         dd.read_csv(file holding `text`, blocksize = b, dtype = str, keep_default_na = False):
         column names and rows (cells as byte strings) must be the parse of the whole text
+   [id, kind |-> "opts", text, o |-> [hdr, names, skip, comment], obs |-> [raised, hdr, rows]]
+        dd.read_csv(file, blocksize = b, header / names / skiprows / comment as in o, dtype = str, keep_default_na = False):
+        the frame of module CsvBlocks!ReadOpts (= pandas.read_csv on the whole file with the same options)
    [id, kind |-> "roundtrip", fr, lay, single, wi,
         obs |-> [raised, files |-> the files to_csv wrote (bytes), back |-> rows read_csv returned (typed cells)]]  *)
 EXTENDS CsvBlocks, TraceIO
 
 Bad(r) ==
-  IF r.obs.raised THEN {"Raised"}
+  IF r.kind = "opts"
+  THEN LET e == ReadOpts(r.text, r.o) IN
+       IF e.err THEN {}                 \* pandas raises on the whole file: there is no frame to compare with (don't-care)
+       ELSE IF r.obs.raised THEN {"Raised"}
+       ELSE Clause("Header", r.obs.hdr = e.hdr) \cup Clause("Rows", r.obs.rows = e.rows)
+  ELSE IF r.obs.raised THEN {"Raised"}
   ELSE IF r.kind = "blocks"
        THEN Clause("Header", r.obs.hdr = ParseCsv(r.text).hdr) \cup Clause("Rows", r.obs.rows = ParseCsv(r.text).rows)
        ELSE Clause("Files", FilesOK(r.fr, r.lay, r.single, r.wi, r.obs.files))
